@@ -251,10 +251,19 @@ func (s *Store) liveToken(tenant, id string) (*AccessToken, error) {
 	if !ok || t.Revoked {
 		return nil, errors.New("token is invalid")
 	}
-	if t.Expiration.Before(s.now()) {
+	if t.Expiration.Before(s.now()) && !s.expiryLeftToClaim(t) {
 		return nil, errors.New("token is expired")
 	}
 	return t, nil
+}
+
+// expiryLeftToClaim: JWTExpiryByClaim and the token was handed out as a JWT (its client's access token type); mu is held.
+func (s *Store) expiryLeftToClaim(t *AccessToken) bool {
+	if !s.JWTExpiryByClaim {
+		return false
+	}
+	c, ok := s.clients[t.ClientID]
+	return ok && c.TokenType == op.AccessTokenTypeJWT
 }
 
 // ---------------------------------------------------------------- harness helpers
